@@ -341,6 +341,7 @@ def build_instances(spec, rec):
         pass
 
     rec.rt = BasicRuntime()
+    rec.slow_unwind = spec.get("slow_unwind", 0)
 
     def body_factory(stepname):
         async def body(self, ctx: Context, ev):
@@ -355,6 +356,11 @@ def build_instances(spec, rec):
                 rec.waiting.append(key)
                 try:
                     await g.wait()
+                except asyncio.CancelledError:
+                    # a body that is slow to unwind: it keeps executing (clean-up awaits) for a while after it was cancelled
+                    for _ in range(getattr(rec, "slow_unwind", 0)):
+                        await asyncio.sleep(0)
+                    raise
                 finally:
                     if key in rec.waiting:
                         rec.waiting.remove(key)
@@ -461,7 +467,10 @@ def gen_run_spec(rng, big=False):
             ops.append(("settle",))
         if rng.random() < 0.55:
             ops.append(("settle",))
-    return dict(instances=insts, ops=ops)
+    out = dict(instances=insts, ops=ops)
+    if rng.random() < 0.4:
+        out["slow_unwind"] = rng.choice([3, 10, 25])     # cancelled step bodies keep running for that many loop turns
+    return out
 
 
 def run_spec(spec, only_w=None):
@@ -764,6 +773,8 @@ def monitor(obs, spec):
     for r in started:
         if r in obs["cancelled"]:
             continue
+        if r not in entered and obs["results"].get(r) == "WorkflowTimeoutError":
+            continue      # the driver let the instance's timeout elapse (advance) before the run's first step was scheduled
         if r not in entered:
             out.append(("C30/run-never-executes", "run %d of instance %d never executed a step (result %s)"
                         % (r, wf_of[r], obs["results"].get(r)), dict(run=r)))
@@ -804,7 +815,7 @@ def alone_spec(spec, obs, w):
                 ops.append(op)
         else:
             ops.append(op)
-    return dict(instances=spec["instances"], ops=ops)
+    return dict(instances=spec["instances"], ops=ops, slow_unwind=spec.get("slow_unwind", 0))
 
 
 def independence_monitor(spec, obs):
